@@ -12,6 +12,8 @@ import (
 	"fmt"
 	"math"
 	"math/big"
+	"sort"
+	"strconv"
 	"strings"
 
 	"go.mongodb.org/mongo-driver/bson"
@@ -668,7 +670,93 @@ func oracleAllOrNothing(r *rng, n int, st *oracleStats) []oracleFailure {
 	return sink.fails
 }
 
+// ---- Changed describes the update ----
+
+// canonDoc: the value with the fields of every (embedded) document sorted by
+// key, so that two documents that differ only in field order render equal.
+func canonDoc(v interface{}) interface{} {
+	switch x := v.(type) {
+	case bson.D:
+		out := make(bson.D, len(x))
+		for i, e := range x {
+			out[i] = bson.E{Key: e.Key, Value: canonDoc(e.Value)}
+		}
+		sort.SliceStable(out, func(i, j int) bool { return out[i].Key < out[j].Key })
+		return out
+	case bson.A:
+		out := make(bson.A, len(x))
+		for i, e := range x {
+			out[i] = canonDoc(e)
+		}
+		return out
+	}
+	return v
+}
+
+func oracleChangesFaithful(r *rng, n int, st *oracleStats) []oracleFailure {
+	st.Rule = "documents x updates of 1-3 operators (generator of family apply, no array filters); after a successful Apply the entries of Changes.Changed are replayed on a clone of the ORIGINAL document (bsonkit.Put for a value, bsonkit.Unset for Missing, in path order); the replayed document must equal the result up to the order of fields (Changed is an unordered map); updates that record a path with a non-canonical index segment (+1, -0, 01 — Put reads them as indices that alias 1, 0, 1 and escape the conflict check) are skipped; non-trivial = at least one change recorded"
+	sink := &failSink{}
+	for i := 0; i < n; i++ {
+		d := genApplyDoc(r, 2, r.chance(1, 3))
+		u, _ := genUpdate(r, d)
+		st.Evaluations++
+		d1 := *bsonkit.Clone(&d)
+		ch, err, pan := safeApply(applyCase{doc: &d1, query: &bson.D{}, update: &u, upsert: r.chance(1, 3)})
+		if pan || err != nil {
+			st.Dist["rejected"]++
+			continue
+		}
+		if len(ch.Changed) > 0 {
+			st.Nontrivial++
+			st.Dist["changed"]++
+		} else {
+			st.Dist["no-change-recorded"]++
+		}
+		if len(st.Samples) < 3 {
+			st.Samples = append(st.Samples, enc(d)+" "+enc(u))
+		}
+		keys := make([]string, 0, len(ch.Changed))
+		alias := false
+		for k := range ch.Changed {
+			keys = append(keys, k)
+			for _, seg := range strings.Split(k, ".") {
+				if n, err := strconv.Atoi(seg); err == nil && strconv.Itoa(n) != seg {
+					alias = true // "+1", "-0", "01": Put reads them as indices that alias "1", "0", "1"
+				}
+			}
+		}
+		if alias {
+			// two recorded paths may then name one array element without conflicting;
+			// the replay order would matter: outside the domain of this oracle
+			st.Dist["skipped:non-canonical-index-segment"]++
+			continue
+		}
+		sort.Strings(keys)
+		d2 := *bsonkit.Clone(&d)
+		failed := false
+		for _, k := range keys {
+			v := ch.Changed[k]
+			if v == bsonkit.Missing {
+				bsonkit.Unset(&d2, k)
+			} else if _, err := bsonkit.Put(&d2, k, cloneValue(v), false); err != nil {
+				failed = true
+				break
+			}
+		}
+		if failed || enc(canonDoc(d2)) != enc(canonDoc(d1)) {
+			sink.add("C11:changed-does-not-describe-update", "replaying Changes.Changed on the original document does not reproduce the updated document", []string{enc(d), enc(u), enc(d1), enc(d2)})
+		}
+	}
+	return sink.fails
+}
+
+func cloneValue(v interface{}) interface{} {
+	d := bson.D{{Key: "v", Value: v}}
+	return (*bsonkit.Clone(&d))[0].Value
+}
+
 func init() {
+	registerOracle(&oracle{prop: "C11", name: "changes-faithful", run: oracleChangesFaithful})
 	registerOracle(&oracle{prop: "C11", name: "idempotence", run: oracleIdempotence})
 	registerOracle(&oracle{prop: "C11", name: "untouched-fields", run: oracleUntouched})
 	registerOracle(&oracle{prop: "C11", name: "numeric", run: oracleNumeric})
